@@ -18,4 +18,5 @@ func genAll() {
 	genDKGRun()
 	genSync()
 	genHandler()
+	genNetRules()
 }
